@@ -35,6 +35,8 @@ ERRSET = {'eval_error': 'Stmt.errEval', 'deriv_error': 'Stmt.errDeriv', 'error':
 PRIMS = ['allocate_string', 'format_error', 'error', 'deriv_error', 'check_deriv_arg', 'format_eval_error',
          'eval_error', 'check_args', 'check_result', 'check_const_arg', 'check_int_arg', 'check_uint_arg',
          'check_zero_func_args', 'check_bessel_args', 'check_coupling_args']
+# bindings whose formulas are transcribed by hand into lean/MpVerif/C16/Deriv.lean (HasDerivAt theorems)
+TRANSCRIBED = ['amplgsl_log1p', 'amplgsl_expm1', 'amplgsl_hypot', 'amplgsl_hypot3']
 OTHER_AL = {'check_result', 'format_eval_error', 'format_error', 'allocate_string'}
 
 
@@ -550,6 +552,9 @@ class Translator:
             if p not in self.decls:
                 raise TranslateError('checker %s is gone from amplgsl.cc' % p)
             out[p] = fingerprint(self.decls[p])
+        for p in TRANSCRIBED:
+            if p in self.decls:
+                out['formula:' + p] = fingerprint(self.decls[p])
         return out
 
     def registrations(self):
@@ -619,6 +624,9 @@ def main(argv):
     for p in PRIMS:
         if fps[p] != expected.get(p):
             problems.append('checker-changed:%s' % p)
+    for p in TRANSCRIBED:
+        if fps.get('formula:' + p) != expected.get('formula:' + p):
+            problems.append('formula-changed:%s' % p)
     regs, handler_off = tr.registrations()
     lines = ['/- GENERATED by translators/tr_gsl.py from src/gsl/amplgsl.cc. Do not edit: regenerated on every check run. -/',
              'import MpVerif.C16.Model',
@@ -671,7 +679,7 @@ def main(argv):
     lines.append('def stringValuedRegistered : Nat := %d' % nstr)
     lines.append('end MpVerif.Gen.GslSkel')
     text = '\n'.join(lines) + '\n'
-    if not problems or all(p.startswith('checker-changed') for p in problems):
+    if not problems or all(p.startswith(('checker-changed', 'formula-changed')) for p in problems):
         old = open(out).read() if os.path.exists(out) else None
         if old != text:
             os.makedirs(os.path.dirname(out), exist_ok=True)
